@@ -282,7 +282,7 @@ class Resolver:
         if k in self._in_progress:
             return ANY
         r = self.ann_type(func.node.returns, func, ctx)
-        if func.name == '_create_from_bitstype' and func.cls in FAMILY:
+        if func.name in self.m.promoters and func.cls in FAMILY:
             # `return auto` under isinstance(auto, cls): the result may be of any subclass of cls
             r = self.family(ctx or func.cls)
         wide = len([t for t in r if t in FAMILY]) > 1 and func.node.returns is not None and \
